@@ -264,14 +264,17 @@ def killLoop (s : State) (i : Nat) (killTime : Nat) (a : After) : State :=
       let s1 := if s.aliveP pid then s.kill pid 9 else s
       stopProcDone s1 i a
 
+/-- `if self.process_watcher is not None: self.process_watcher.stop(); self.process_watcher = None` -/
+def State.stopWatcher (s : State) : State :=
+  match s.watcher with
+  | some w => ({ s.setStopFlag w with watcher := none } : State)
+  | none => s
+
 /-- `_stop_process` from the acquisition of `_stopping_lock` -/
 def stopProcBody (s : State) (i : Nat) (a : After) : State :=
   if s.procStopping then afterStopProc s i a
   else
-    let s1 := { s with procStopping := true }
-    let s2 := match s1.watcher with
-      | some w => ({ s1.setStopFlag w with watcher := none } : State)
-      | none => s1
+    let s2 := ({ s with procStopping := true } : State).stopWatcher
     match s2.process with
     | none => afterStopProc { s2 with procStopping := false } i a
     | some pid =>
